@@ -402,3 +402,63 @@ func (p Policy) Kinds() string {
 	}
 	return strings.Join(out, ",")
 }
+
+// EvalK is the strong (Kleene) three-valued reading: a false operand makes a conjunction
+// (and / all / a policy) false and a true operand makes a disjunction (or / any) true
+// whatever the other operands are; otherwise unresolved operands leave it unresolved. It is
+// what order-independence plus "adding an operand to an and (an element under all) never
+// turns a failing match into a passing one" imply for the failing side, and is used where a
+// workload goes beyond the fragment in which every selector resolves.
+func EvalK(s Stmt, d V) Tri {
+	switch s.Kind {
+	case "not":
+		t := EvalK(s.Subs[0], d)
+		if t == Unresolved {
+			return t
+		}
+		return b2t(t == False)
+	case "and", "or":
+		if s.Kind == "or" && len(s.Subs) == 0 {
+			return Unresolved
+		}
+		unres := false
+		for _, c := range s.Subs {
+			t := EvalK(c, d)
+			switch {
+			case t == Unresolved:
+				unres = true
+			case s.Kind == "and" && t == False:
+				return False
+			case s.Kind == "or" && t == True:
+				return True
+			}
+		}
+		if unres {
+			return Unresolved
+		}
+		return b2t(s.Kind == "and")
+	case "all", "any":
+		o, v := Select(s.Sel, d)
+		if o != OValue || v.K != KList {
+			return Unresolved
+		}
+		unres := false
+		for _, e := range v.L {
+			t := EvalK(s.Subs[0], e)
+			switch {
+			case t == Unresolved:
+				unres = true
+			case s.Kind == "all" && t == False:
+				return False
+			case s.Kind == "any" && t == True:
+				return True
+			}
+		}
+		if unres {
+			return Unresolved
+		}
+		return b2t(s.Kind == "all")
+	}
+	t, _ := Eval(s, d)
+	return t
+}
